@@ -124,7 +124,9 @@ def do_connect(r, pairs, shift, weak, init):
     if weak:
         kw["weak"] = True
     if init:
-        kw["initial_data"] = {sa: "init" for sa, da in pairs}
+        # "none": the initial value None is a value like any other (the destination sees None in
+        # its first step), not "no initial data"
+        kw["initial_data"] = {sa: (None if init == "none" else "init") for sa, da in pairs}
     stubs.CTX = r
     env.LOG_SINK.append(r.logs)
     try:
@@ -201,7 +203,9 @@ def _work(combo):
         for da in dattrs:
             for shift in (0, 1, 2):
                 for weak in (False, True):
-                    for init in (False, True):
+                    for init in (False, True, "none"):
+                        if init == "none" and not (shift or weak):
+                            continue
                         calls.append(([(sa, da)], shift, weak, init))
     # two-pair calls: one valid pair plus each possible second pair (plain and shifted)
     good = (ATTRS[st][-1], ATTRS[dt][0])
